@@ -136,6 +136,8 @@ class FakeProc:
         self.stderr = ("err of %s" % script).encode()
         self.ran_to_end = False
         self.rc_given = None
+        self.spawned_at = pool.loop.time()
+        self.killed_at = None
 
     def alive(self):
         return self.returncode is None
@@ -147,12 +149,16 @@ class FakeProc:
 
     def kill(self):
         self.kill_calls += 1
+        if self.killed_at is None:
+            self.killed_at = self.pool.loop.time()
         if self.returncode is None:
             self.returncode = -9
             self.exit.set_result(-9)
 
     def terminate(self):
         self.term_calls += 1
+        if self.killed_at is None:
+            self.killed_at = self.pool.loop.time()
         if self.returncode is None and not self.ignores_term:
             self.returncode = -15
             self.exit.set_result(-15)
